@@ -2,10 +2,13 @@ CONSTANTS
   PW = 2
   LW = 3
   CW = 3
-  MaxRows = 5
-  DPc = {1, 3, 4, 7}
-  DLine <- LookupDL
-  DCol <- LookupDC
+  MaxRows = 4
+  DPc1 = {0, 2}
+  DLine1 <- LookupDL
+  DCol1 <- LookupDC
+  DPc2 = {1, 4, 7}
+  DLine2 <- LookupDL
+  DCol2 <- LookupDC
   Line0 = 9
   Col0 = 9
   Greedy = TRUE
